@@ -27,3 +27,27 @@ fn c16_euclidean_one_block() {
     assert!(ab >= 0.0, "C16/euclidean.nonnegative_not_nan: d(a,b) >= 0 and not NaN");
     assert!(euclidean(&empty, &a) == 0.0 && euclidean(&a, &empty) == 0.0, "C16/euclidean.empty_operand: with an empty operand the common prefix is empty and the distance is 0");
 }
+
+//@H props=C16 kind=bounded tier=quick stubs=no fn=cosine,euclidean bound="block counts (1,2) and (2,1); shared block concrete (3,4,0,..), extra block: 2 symbolic lanes (|t| <= 1e6)" timeout=300
+//@H clause: when lengths differ only the common packed prefix is used: a vector compared with its own longer extension has cosine similarity 1 and Euclidean distance 0, whatever the extra block holds
+#[kani::proof]
+#[kani::unwind(10)]
+fn c16_common_prefix_only() {
+    let mut a = [0.0f32; 8];
+    a[0] = 3.0;
+    a[1] = 4.0;
+    let mut tail = [0.0f32; 8];
+    for i in 0..2 {
+        let t: f32 = kani::any();
+        kani::assume(t >= -1.0e6 && t <= 1.0e6);
+        tail[i] = t;
+    }
+    let short: Feature = vec![f32x8::new(a)];
+    let long: Feature = vec![f32x8::new(a), f32x8::new(tail)];
+    let c1 = cosine(&short, &long);
+    let c2 = cosine(&long, &short);
+    kani::cover!(tail[0] > 100.0, "reach/c16_common_prefix_only large tail");
+    assert!(c1 >= 0.99, "C16/cosine.common_prefix_right: blocks of the longer right operand beyond the common prefix do not enter the similarity");
+    assert!(c2 >= 0.99, "C16/cosine.common_prefix_left: blocks of the longer left operand beyond the common prefix do not enter the similarity");
+    assert!(euclidean(&short, &long) == 0.0 && euclidean(&long, &short) == 0.0, "C16/euclidean.common_prefix: blocks beyond the common prefix do not enter the distance");
+}
